@@ -6,7 +6,7 @@ tier=${1:-quick}; filt=${2:-.}
 out=/verif/seeded/RESULTS.$tier.md
 echo "| seeded change | check exit | first violated obligation |" > $out
 echo "|---|---|---|" >> $out
-for d in /verif/seeded/C*; do
+for d in /verif/seeded/C*; do  # (refactor-* entries are run per file with seedcheck.sh, see their meta.json)
   n=$(basename $d); echo "$n" | grep -qE "$filt" || continue
   p=${n%%-*}
   res=$(LINES_MAX=2 /verif/tools/seedcheck.sh $d/patch.diff $tier $p 2>&1)
